@@ -85,10 +85,14 @@ CLAIMED.update({
         "text": "or_perm / of_perm prove that or and the counting quantifiers are invariant under every permutation of their operand "
                 "results (three-valued), and_perm_truth / binary_comm that reordering never changes whether a conjunction is true, "
                 "group_or_perm / group_and_perm_truth the same for groups of expressions, positive_context_truth that positions not "
-                "under negation or none-of are monotone, so reordering inside them cannot change the rule's verdict. Random rules "
+                "under negation or none-of are monotone, so reordering inside them cannot change the rule's verdict. C17_yaml: the "
+                "same at the level of the RULE TEXT through the reference semantics the engine refines (Properties/C02_all.v): "
+                "max3_perm, of3_perm, first_non_true_perm_truth, sem_list_perm (members of a list), sem_mapping_perm_truth "
+                "(entries of a mapping), sem_identifier_seq_perm (entries of a sequence), engine_seq_perm / "
+                "engine_mapping_perm_truth (transport to the engine). Random rules "
                 "without negation/none-of are compared with shuffled variants (all lists, mappings, sequences, condition operands; "
                 "exhaustive permutations of one list up to 4 members) on the crate.",
-        "note": TB + "YAML-level permutations (members of key lists, entries of mappings) are covered by the differential runs; the theorems are stated on operand vectors and expression groups.",
+        "note": TB + "The YAML-level theorems hold where the engine refines the reference (the fragment and exclusions of Properties/C02_all.v); outside it YAML-level permutations are covered by the differential runs.",
         "technique": "Coq proof (Permutation induction over closed forms of the folds; context induction) + differential permutation runs",
     },
 })
